@@ -294,9 +294,33 @@ def check_must_raise(ctx, repo, qual=NEW):
         else:
             ctx.violation(c, f"inconsistent input ({label}) builds a multivector {pairs_of(out[1])} instead of raising", fn,
                           result=pairs_of(out[1]))
+    # keyword blades next to values / keys (documented as mutually exclusive): raise, or keep every supplied coefficient
+    mixed = [
+        ("mapping and a keyword blade", rep_algebra(3), {"values": {"e1": Val("A")}, "e2": Val("B")}),
+        ("keys, values and a keyword blade", rep_algebra(3), {"keys": (1,), "values": [Val("A")], "e12": Val("B")}),
+        ("a grade's value list and a keyword blade", rep_algebra(3), {"values": [Val("A"), Val("C"), Val("D")], "grades": (1,), "e12": Val("B")}),
+    ]
+    for label, alg, kw in mixed:
+        c = f"{qual}#mixed-forms:{label}"
+        try:
+            out = run_new(repo, alg, kwargs=kw)
+        except NoValue as exc:
+            raise Unknown(c, str(exc), fn)
+        if out[0] == "raise":
+            ctx.ok(c, fn, outcome=f"raises {out[1]}")
+            continue
+        got = pairs_of(out[1])
+        if got is None:
+            raise Unknown(c, f"unrecognised construction result {out[1]!r}", fn)
+        if "B" in {str(v).lstrip("-") for v in got.values()}:
+            ctx.ok(c, fn, outcome=got)
+        else:
+            ctx.violation(c, f"{label}: the coefficient B supplied as a keyword blade is silently dropped (result {got}); the forms are "
+                             f"documented as mutually exclusive, so the call must raise (or keep every supplied coefficient)", fn, result=got)
 
 
-@rule("C15.must-raise", props=["C15", "C13"], min_instances=9, mutants=[
+@rule("C15.must-raise", props=["C15", "C13"], min_instances=12, mutants=[
+    ("keyword blades next to values are ignored", ("multivector", "        if items and (keys is not None or values is not None):\n            raise ValueError(\"Keyword blades cannot be combined with `values` or `keys`.\")\n", "")),
     ("graded check dropped", ("multivector", "if algebra.graded and keys and keys != algebra.indices_for_grades[grades]:", "if False and keys != algebra.indices_for_grades[grades]:")),
     ("graded check compares key sets", ("multivector", "if algebra.graded and keys and keys != algebra.indices_for_grades[grades]:", "if algebra.graded and keys and set(keys) != set(algebra.indices_for_grades[grades]):")),
     ("subset check dropped", ("multivector", "        if not set(keys) <= set(algebra.indices_for_grades[grades]):\n            raise ValueError(f\"All keys should be of grades {grades}.\")\n", "")),
